@@ -80,6 +80,9 @@ type Case struct {
 	// then holds Reps * len(Targets) logs, run after run.
 	Reps int        `json:"reps,omitempty"`
 	Obs  [][]string `json:"obs,omitempty"`
+	// Gaps[i]: microseconds from the return of each MonitorError callback in
+	// Obs[i] to the goroutine's next letter of the same incarnation.
+	Gaps [][]int64 `json:"gaps,omitempty"`
 }
 
 // ---------------------------------------------------------------------------
@@ -98,7 +101,8 @@ type tgt struct {
 	mu        sync.Mutex
 	cond      *sync.Cond
 	log       []string
-	gor       int  // goroutine letters in log
+	at        []time.Time // when each log entry was appended
+	gor       int         // goroutine letters in log
 	blocked   bool // inside a hanging Recv that only Reconnect/Remove can end
 	exhausted bool // the script is used up (default hanging stream reached)
 	iCred     int
@@ -112,6 +116,7 @@ type tgt struct {
 func (t *tgt) ev(s string, gor bool) {
 	t.mu.Lock()
 	t.log = append(t.log, s)
+	t.at = append(t.at, time.Now())
 	if gor {
 		t.gor++
 	}
@@ -361,7 +366,32 @@ func (t *tgt) waitFor(d time.Duration, pred func() bool) bool {
 	return true
 }
 
-func runCase(c Case, window time.Duration) [][]string {
+// gapsOf: for every "ME" followed in the same incarnation by another goroutine
+// letter, the microseconds between the two log appends.
+func gapsOf(log []string, at []time.Time) []int64 {
+	gaps := []int64{}
+	var last time.Time
+	have := false
+	for i, e := range log {
+		switch e {
+		case "addC", "rmR+":
+			have = false
+			continue
+		case "add+", "add-", "rcC", "rcR+", "rcR-", "rmC", "rmR-", "hang", "stall":
+			continue
+		}
+		if have {
+			gaps = append(gaps, at[i].Sub(last).Microseconds())
+			have = false
+		}
+		if e == "ME" {
+			last, have = at[i], true
+		}
+	}
+	return gaps
+}
+
+func runCase(c Case, window time.Duration) ([][]string, [][]int64) {
 	seq := atomic.AddInt64(&caseSeq, 1)
 	m, err := manager.NewManager(manager.Config{
 		Connect:           func(n string) { cb(n, "Connect") },
@@ -403,13 +433,15 @@ func runCase(c Case, window time.Duration) [][]string {
 	wg.Wait()
 	time.Sleep(window) // post-Remove listening window
 	out := make([][]string, len(ts))
+	gaps := make([][]int64, len(ts))
 	for i, t := range ts {
 		t.mu.Lock()
 		out[i] = append([]string{}, t.log...)
+		gaps[i] = gapsOf(t.log, t.at)
 		t.mu.Unlock()
 		// the name stays registered: a late callback must still find its log
 	}
-	return out
+	return out, gaps
 }
 
 // mayExpire: the effective receive timeout (target meta overrides the
@@ -587,8 +619,14 @@ func caseTerm(c Case) string {
 		for j, e := range c.Obs[i] {
 			evs[j] = evTerm(e)
 		}
-		ts[i] = fmt.Sprintf("mkt %s %s %s %s", vh.Bool(sp.Creds), vh.Nat(sp.Hops),
-			vh.Bool(mayExpire(c, sp)), vh.List(evs))
+		gs := []string{}
+		if i < len(c.Gaps) {
+			for _, g := range c.Gaps[i] {
+				gs = append(gs, vh.Z(g))
+			}
+		}
+		ts[i] = fmt.Sprintf("mktg %s %s %s %s %s %s", vh.Bool(sp.Creds), vh.Nat(sp.Hops),
+			vh.Bool(mayExpire(c, sp)), vh.Z(minGapUs), vh.List(gs), vh.List(evs))
 	}
 	return vh.List(ts)
 }
@@ -615,6 +653,14 @@ func normalize(c *Case) {
 }
 
 const tmo = 12 // ms, receive timeout used when enabled
+
+// retry policy set by main; minGapUs is 90% of the smallest delay the backoff
+// policy can produce (RetryBaseDelay * (1 - RetryRandomization)).
+const (
+	retryBase = time.Millisecond
+	retryMax  = 3 * time.Millisecond
+	minGapUs  = 450
+)
 
 // scripts of the systematic family: each exercises a few branches; control
 // actions are then placed at every position of the baseline log.
@@ -723,6 +769,7 @@ func nontrivial(c Case) bool {
 
 func canonical(c Case) string {
 	c.Obs = nil
+	c.Gaps = nil
 	c.Family = ""
 	c.Reps = 0
 	b, _ := json.Marshal(c)
@@ -776,6 +823,7 @@ func (e *emitter) flush() {
 // Manager; names are unique) and records them in input order.
 func (e *emitter) runAll(cs []Case, par int) {
 	out := make([][][]string, len(cs))
+	gout := make([][][]int64, len(cs))
 	sem := make(chan struct{}, par)
 	var wg sync.WaitGroup
 	var stalled int64
@@ -785,6 +833,7 @@ func (e *emitter) runAll(cs []Case, par int) {
 			// do not spend a watchdog period on every remaining case
 			cs = cs[:i]
 			out = out[:i]
+			gout = gout[:i]
 			break
 		}
 		sem <- struct{}{}
@@ -802,7 +851,9 @@ func (e *emitter) runAll(cs []Case, par int) {
 				reps = 1
 			}
 			for k := 0; k < reps; k++ {
-				out[i] = append(out[i], runCase(cs[i], e.window)...)
+				o, g := runCase(cs[i], e.window)
+				out[i] = append(out[i], o...)
+				gout[i] = append(gout[i], g...)
 			}
 			for _, tr := range out[i] {
 				for _, ev := range tr {
@@ -817,6 +868,7 @@ func (e *emitter) runAll(cs []Case, par int) {
 	for i := range cs {
 		c := cs[i]
 		c.Obs = out[i]
+		c.Gaps = gout[i]
 		for len(c.Obs) < len(c.Targets) || len(c.Obs)%len(c.Targets) != 0 {
 			c.Obs = append(c.Obs, []string{"hang"})
 		}
@@ -862,11 +914,13 @@ func main() {
 	if devnull, err := os.OpenFile(os.DevNull, os.O_WRONLY, 0); err == nil {
 		os.Stderr = devnull // glog of the package under test
 	}
-	manager.RetryBaseDelay = time.Millisecond
-	manager.RetryMaxDelay = 3 * time.Millisecond
+	manager.RetryBaseDelay = retryBase
+	manager.RetryMaxDelay = retryMax
+	manager.RetryRandomization = 0.5
 	manager.VerifSetSubscribeClient(openStream)
 
-	meta := vh.NewMeta("corpus cases; systematic family: six single-target fault scripts (dial refusal, credentials / open / send failure, multi-hop, data then error / EOF, hang with and without receive timeout, slow live stream), each alone and with one Reconnect, one Remove and one Remove+Add placed at every position of the script's baseline log; random family: 1-3 targets per manager (shared addresses), 1-6 scripted attempts each, 0-4 control actions at random log positions. distinct = distinct (scripts, actions); non-trivial = some target's log has a Reset and a ConnectError")
+	meta := vh.NewMeta("corpus cases; systematic family: single-target fault scripts (dial refusal, credentials / open / send failure, multi-hop, data then error / EOF, hang with and without receive timeout, slow live stream; seven single-target fault scripts in all, the seventh with a receive timer that is armed but cannot expire), each alone and with one Reconnect, one Remove and one Remove+Add placed at every position (quick: every second position of long logs) of the script's baseline log, a third of them with slow callbacks (a callback is logged when it returns); random family: 1-3 targets per manager (shared addresses), 1-6 scripted attempts each, 0-4 control actions (Reconnect, Remove, Add, Remove+Add) at random log positions, receive timeout none / 12 ms / far away, callbacks instantaneous or 100-400 us. distinct = distinct (scripts, actions); non-trivial = some target's log has a Reset and a ConnectError")
+	meta.Samples = []interface{}{} // never null in meta.json
 	window := 30 * time.Millisecond
 	par := 8
 	if o.Thorough() {
@@ -922,7 +976,7 @@ func main() {
 	var sys []Case
 	for _, sp := range systematicScripts() {
 		base := Case{Family: "systematic", Targets: []TargetSpec{sp}}
-		obs := runCase(base, 0)
+		obs, _ := runCase(base, 0)
 		l := gorLen(obs[0])
 		if l > 60 {
 			l = 60
